@@ -69,6 +69,12 @@ def Kind.of (k : Kind) (lam G : ℝ) : ℝ :=
   | .bulk => lam + 2 * G / 3
   | .long => lam + 2 * G
 
+/-- the six parameters of a material are the values of the six kinds -/
+theorem IsoMaterial.kind_of {lam G E nu K M : ℝ} (m : IsoMaterial lam G E nu K M) :
+    Kind.lame.of lam G = lam ∧ Kind.shear.of lam G = G ∧ Kind.youngs.of lam G = E
+      ∧ Kind.poisson.of lam G = nu ∧ Kind.bulk.of lam G = K ∧ Kind.long.of lam G = M :=
+  ⟨rfl, rfl, m.youngs.symm, m.poisson.symm, m.bulk.symm, m.long.symm⟩
+
 /-- `set_elastic_params` docstring, requirement 1 ("Each user-specified modulus parameter is
 positive") and the constructor's comment "a GIVEN poisson_ratio (pnu) lies in the PD strain
 energy range: -1.0 < pnu < 0.5" -/
